@@ -935,6 +935,8 @@ func c06SliceAliasInLoop(c *Ctx) {
 	r.Rule("R06m", "schema constraint keywords are derived only from rules that bound the same quantity in the same unit (shared with C19/R19j): a body the rules accept is not rejected by a keyword the rules do not state", 14)
 	// for C06 a keyword that is implied by the rule (at most N bytes implies at most N characters) rejects no accepted body
 	keywordSources(c, "R06m", map[string][]string{"MaxLength": {"MaxBytes"}})
+	r.Rule("R06n", "the flatten and discriminated-oneof encoders remove the wrapper key whenever the field is set (never conditionally on the child's content): the wire carries only the promoted keys the schema describes", 2)
+	wrapperKeyAlwaysRemoved(c, "R06n")
 	r.Rule("R06l", "per-iteration slices (required lists, parameter lists) of the OpenAPI generator do not share a backing array with a slice from outside the loop", 1)
 	pk := c.P.Pkg(pkgOpenAPI)
 	if pk == nil {
